@@ -174,7 +174,7 @@ def run_cases(ctx, cases):
 
 
 def run(ctx):
-    proof = prove('C07', ['exefs'], ['C07_props'], static_deps=['Proofs/ExefsProofs.v', 'Base/PySlice.v', 'Base/PyInt.v'])
+    proof = prove('C07', ['exefs'], ['C07_props'], static_deps=['Proofs/ExefsProofs.v', 'Proofs/ExefsHeaderProofs.v', 'Base/PySlice.v', 'Base/PyInt.v'])
     run_cases(ctx, (gen_case(ctx.rng) for _ in range(ctx.n(250, 6000))))
     n0 = ctx.evaluations
     run_cases(ctx, exhaustive())
